@@ -248,8 +248,22 @@ theorem update_crash_prefix (sch : Levels) {db0 dbN : Engine.DB} {sdb0 sdbN : Sp
   obtain ⟨ptN, tblsN, rN, sdbF, hreN, habsN, hvN, hcrN, hselfN, hfN, a1, a2, a3⟩ :=
     spec_run_replayed sch run hwal pt tbls hA hself hf
   obtain ⟨sdbF', hspecF, _⟩ := specUpdate_congr hvN table sets w hspec
+  have hsetAll : ∀ schema, schemaOf sch table = some schema →
+      Engine.checkSetColumns (schema.map fun fd => (⟨[], fd.name.toUTF8.toList⟩ : Exec.Field)) []
+        (sets.map (·.1)) = none := by
+    intro schema hsch
+    obtain ⟨stF, hfindF⟩ : ∃ stF, Spec.findTable sdbF table = some stF := by
+      rw [specUpdate_eq] at hspecF
+      cases hfd : Spec.findTable sdbF table with
+      | none => rw [hfd] at hspecF; cases hspecF
+      | some stF => exact ⟨stF, rfl⟩
+    obtain ⟨tF, htF⟩ := habsN.tabs.find_some hfindF
+    obtain ⟨schema', hsch', hdecF, _⟩ := habsN.tabs.find habsN.cat.tnames htF
+    rw [hsch] at hsch'
+    cases hsch'
+    exact evalUpdate_ok_set habsN.cat table tF htF schema hsch hdecF sets w heval
   obtain ⟨dbC', logs, st0, sel0, eC, hwC, hfind0, hsel0, hlen, hcut⟩ := evalUpdate_cut dbN rN ptN sch tblsN sdbF
-    sdbF' habsN hcrN hselfN hfN a1 a2 a3 table sets w hvalid hspecF
+    sdbF' habsN hcrN hselfN hfN a1 a2 a3 table sets w hvalid hsetAll hspecF
   rw [eC] at heval
   simp only [Engine.Res.ok.injEq, true_and] at heval
   subst heval
